@@ -3,7 +3,7 @@
    "detection spawns the end" lemmas for the insufficient-state branches. *)
 From Coq Require Import List NArith Bool Lia ZifyN ZifyNat ZifyBool Sorting.Sorted.
 From Cfg Require Import Model.Merge Model.MergeSpec Proofs.Merge Model.Positioned Model.PositionedSpec
-  Proofs.PositionedLib Proofs.Positioned.
+  Model.BracketSpec Proofs.PositionedLib Proofs.Positioned.
 Import ListNotations.
 Open Scope N_scope.
 
@@ -28,7 +28,7 @@ Record EInv (c : cfg) (s : st) : Prop := {
   e_pending : pending s <> 0%nat -> pc s = SDone;
   e_cleanup : cleanup s = true -> quiet (pc s) = true /\ closed s = true;
   e_end : has_end (log s) = true -> closed s = true \/ (hub s = false /\ finished (pc s) = true);
-  e_ok : no_pub_after_end (log s) = true
+  e_ok : no_push_after_end (log s) = true
 }.
 
 Lemma einv_init : forall c, EInv c init.
@@ -39,27 +39,40 @@ Qed.
 Lemma has_end_app : forall a b, has_end (a ++ b) = (has_end a || has_end b)%bool.
 Proof. intros. unfold has_end. apply existsb_app. Qed.
 
-Lemma npae_app_nopub : forall l fs, no_pub_after_end l = true -> pub_offs fs = [] ->
-  no_pub_after_end (l ++ fs) = true.
+Lemma npae_app_nopub : forall l fs, no_push_after_end l = true -> existsb is_push fs = false ->
+  no_push_after_end (l ++ fs) = true.
 Proof.
-  induction l as [|f l IH]; intros fs H Hp; cbn [app no_pub_after_end] in *.
-  - induction fs as [|g fs IHf]; [reflexivity|]. cbn [no_pub_after_end].
-    assert (Hp' : pub_offs fs = []).
-    { destruct g; cbn [pub_offs] in Hp; try exact Hp. destruct (po p =? 0); [exact Hp|discriminate]. }
+  induction l as [|f l IH]; intros fs H Hp; cbn [app no_push_after_end] in *.
+  - induction fs as [|g fs IHf]; [reflexivity|]. cbn [no_push_after_end].
+    cbn [existsb] in Hp. apply orb_false_iff in Hp. destruct Hp as [_ Hp'].
     destruct (is_end g); [rewrite Hp'; reflexivity|apply IHf; exact Hp'].
   - destruct (is_end f).
-    + rewrite pub_offs_app, Hp, app_nil_r. exact H.
+    + rewrite existsb_app, Hp, orb_false_r. exact H.
     + apply IH; assumption.
 Qed.
 
 Lemma npae_app_noend : forall l fs, has_end l = false -> has_end fs = false ->
-  no_pub_after_end (l ++ fs) = true.
+  no_push_after_end (l ++ fs) = true.
 Proof.
   intros l fs H1 H2.
   assert (H : has_end (l ++ fs) = false) by (rewrite has_end_app, H1, H2; reflexivity).
   revert H. generalize (l ++ fs). induction l0 as [|f l0 IH]; intros H; [reflexivity|].
   cbn [has_end existsb] in H. apply orb_false_iff in H. destruct H as [Hf Hl].
-  cbn [no_pub_after_end]. rewrite Hf. apply IH. exact Hl.
+  cbn [no_push_after_end]. rewrite Hf. apply IH. exact Hl.
+Qed.
+
+Lemma pub_offs_nil_of_nopush : forall l, existsb is_push l = false -> pub_offs l = [].
+Proof.
+  induction l as [|f l IH]; intros H; [reflexivity|].
+  cbn [existsb] in H. apply orb_false_iff in H. destruct H as [Hf Hl].
+  destruct f; cbn [pub_offs]; try (apply IH; exact Hl). discriminate.
+Qed.
+
+Lemma no_push_no_pub : forall l, no_push_after_end l = true -> no_pub_after_end l = true.
+Proof.
+  induction l as [|f l IH]; intros H; [reflexivity|]. cbn [no_push_after_end no_pub_after_end] in *.
+  destruct (is_end f); [|apply IH; exact H].
+  apply negb_true_iff in H. rewrite (pub_offs_nil_of_nopush _ H). reflexivity.
 Qed.
 
 Lemma has_end_map_FPub : forall l, has_end (map FPub l) = false.
@@ -88,7 +101,7 @@ Proof.
     unf; cbn; rewrite ?Hch; eauto.
 Qed.
 
-Lemma pub_offs_unsub_out : forall k, pub_offs [unsub_out_frame k] = [].
+Lemma pub_offs_unsub_out : forall k, existsb is_push [unsub_out_frame k] = false.
 Proof. destruct k; reflexivity. Qed.
 
 Ltac sce :=
@@ -153,7 +166,7 @@ Proof.
             assert (Hne : has_end (log s0) = false);
             [ destruct (has_end (log s0)) eqn:He; [|reflexivity]; exfalso;
               destruct (Eend eq_refl) as [X|[X Y]]; try congruence; try discriminate;
-              match goal with Hd : dl s0 = DPub _ _ _ |- _ =>
+              match goal with Hd : dl s0 = _ |- _ =>
                 assert (Hh : hub s0 = true) by (apply (i_dl_hub c s0 IS0); congruence); congruence end
             | rewrite <- ?app_assoc; apply npae_app_noend; [exact Hne|cbn; rewrite ?has_end_map_FPub; reflexivity] ] end).
   (* has_end obligations where the thread is not finished or the hub entry is gone *)
@@ -206,6 +219,15 @@ Qed.
    publication is written after the frame that ended the subscription. *)
 Theorem c01_no_pub_after_end : forall c ls s,
   c_batch c = false -> run c init ls = Some s -> no_pub_after_end (log s) = true.
+Proof.
+  intros c ls s Hp H.
+  assert (I : FInv c s).
+  { eapply finv_run; eauto. constructor; [apply sinv_init|apply einv_init]. }
+  apply no_push_no_pub. apply (e_ok c s (f_e c s I)).
+Qed.
+
+Theorem c10_no_push_after_end : forall c ls s,
+  c_batch c = false -> run c init ls = Some s -> no_push_after_end (log s) = true.
 Proof.
   intros c ls s Hp H.
   assert (I : FInv c s).
